@@ -143,10 +143,10 @@ class GroupGen(Pool):
     def __init__(self, rnd):
         Pool.__init__(self, rnd)
         self.keys = [b's1', b's1', b's1', b's2']
-        self.groups = [b'g1', b'g1', b'g2', b'g\xff']
+        self.groups = [b'g1', b'g1', b'g2', b'g3']
         self.cons = [b'c1', b'c2', b'c3']
         if rnd.random() < 0.3:      # binary names that differ only in bytes that are not valid UTF-8
-            self.groups.append(b'g\xfe')
+            self.groups += [b'g\xff', b'g\xfe']
             self.cons.append(b'c\xff')
         self.next_id = {}
         self.n = 0
